@@ -87,7 +87,7 @@ func TestC01RawRoundTrip(t *testing.T) {
 	rec := evid.New(t, "C01", "rapid-generated flat frames (version, every header byte, id, payload 0..255, checksum, signature block) written by frame.Writer and compared with the reference serializer, then read back; non-trivial = payload non-empty or signed or a non-zero header byte; distinct by hash of the frame bytes")
 	rec.Require("v1", "v2-unsigned", "v2-signed", "len255", "len0", "id>=65536")
 	_, ardu := dialects(t)
-	evid.Check(t, rec, evid.N(30000, 250000), func(t *rapid.T) {
+	evid.Check(t, rec, evid.N(150000, 600000), func(t *rapid.T) {
 		f := gen.RawFrame(t, gen.FrameOpts{AnyFlags: rapid.IntRange(0, 9).Draw(t, "anyflags") == 0})
 		// with a dialect configured, ids outside the dialect stay raw: pick the configuration
 		var drw *dialect.ReadWriter
@@ -265,7 +265,7 @@ func TestC01Unrepresentable(t *testing.T) {
 	rec := evid.New(t, "C01", "frames a version cannot represent (v1 id>255; v2 id>=2^24; payload longer than 255 bytes): Write must return an error and hand zero bytes to the ByteWriter; distinct by (class,id,len)")
 	rec.Require("v1-id>255", "v2-id>=2^24", "payload>255")
 	common, _ := dialects(t)
-	evid.Check(t, rec, evid.N(3000, 40000), func(t *rapid.T) {
+	evid.Check(t, rec, evid.N(20000, 100000), func(t *rapid.T) {
 		f := gen.RawFrame(t, gen.FrameOpts{})
 		kind := rapid.SampledFrom([]string{"v1-id>255", "v2-id>=2^24", "payload>255"}).Draw(t, "kind")
 		switch kind {
